@@ -178,9 +178,10 @@ func ledgerScenario(c *Ctx, p ledgerParams) {
 			// neither spice nor data; the data field absent, or present with no bytes in it
 			t := w.NewTrx(pick(c, w.wallets), pick(c, w.wallets).Address(), spice.Melange{}, pick(c, [][]byte{nil, {}, make([]byte, 0, 16)}))
 			w.Propose(n, &t)
-		case r < 55: // non-canonical amount: proposed locally and offered by gossip (sealed by a wallet we control)
+		case r < 56: // non-canonical amount: proposed locally and offered by gossip (sealed by a wallet we control)
 			amt := spice.Melange{Currency: uint64(c.Rnd.Intn(2)), SupplementaryCurrency: pick(c, []uint64{maxSupp, maxSupp + 1, 1<<64 - 1})}
-			t := w.NewTrx(pick(c, w.wallets), pick(c, w.wallets).Address(), amt, nil)
+			// with and without data: carrying data does not make a non-canonical amount acceptable
+			t := w.NewTrx(pick(c, w.wallets), pick(c, w.wallets).Address(), amt, pick(c, [][]byte{nil, []byte("c"), {}}))
 			w.Propose(n, &t)
 			if s := n.lastSnap; s != nil && len(s.Leaves) > 0 {
 				sealer := pick(c, w.wallets)
@@ -571,6 +572,46 @@ func staleLookups(c *Ctx, round int) {
 	}
 }
 
+// gossipOnLocalOverdraw: a node seals (CreateLeaf never judges the transaction it seals) a transfer its
+// issuer cannot cover; before the node's next own proposal a vertex sealed by somebody else arrives that
+// names that tentative tip as parent. The tip must be validated before the first edge: the delivery is
+// refused and the tip dropped with its index entry.
+func gossipOnLocalOverdraw(c *Ctx, round int) {
+	w := NewWorld(c)
+	defer w.Close()
+	a := w.NewNode()
+	for i := 0; i < 4; i++ {
+		w.NewWallet()
+	}
+	if _, err := w.Genesis(a, w.wallets[0].Address(), spice.Melange{Currency: 1000}); err != nil {
+		return
+	}
+	for i := 0; i < 1+round%3; i++ {
+		t := w.NewTrx(w.wallets[0], w.wallets[1].Address(), spice.Melange{Currency: 5}, nil)
+		w.Propose(a, &t)
+	}
+	// w2 holds nothing (round%2 == 0) or less than it spends
+	amt := spice.Melange{Currency: 7}
+	if round%2 == 1 {
+		amt = spice.Melange{Currency: 5 * uint64(1+round%3), SupplementaryCurrency: 1}
+	}
+	spender := w.wallets[2]
+	if round%2 == 1 {
+		spender = w.wallets[1]
+	}
+	bad := w.NewTrx(spender, w.wallets[3].Address(), amt, nil)
+	tip, err := w.Propose(a, &bad)
+	if err != nil {
+		return
+	}
+	ct := w.NewTrx(w.wallets[3], w.wallets[0].Address(), spice.Melange{}, []byte("child"))
+	child, _ := accountant.NewVertex(ct, tip.Hash, tip.Hash, tip.Weight+1, w.wallets[0]) // sealed by a wallet acting as node
+	w.Add(a, &child)
+	t := w.NewTrx(w.wallets[0], w.wallets[1].Address(), spice.Melange{Currency: 1}, nil)
+	w.Propose(a, &t)
+	c.Distinct(fmt.Sprintf("gossip-on-local-overdraw/%d", round%2))
+}
+
 // cancelledProposal: a proposal whose caller has gone away (context cancelled or past its deadline) while
 // the ledger holds a tentative spice tip. Whatever the node does with that tip, vertices and index stay in
 // step, and the tip's transaction cannot be sealed a second time. The interrupted call itself is not
@@ -645,6 +686,7 @@ func init() {
 		for r := 0; r < sr; r++ {
 			staleLookups(c, r)
 			cancelledProposal(c, r)
+			gossipOnLocalOverdraw(c, r)
 		}
 		c.Sample(map[string]interface{}{"scenarios": scen, "example": "GEN n0 -> w0 1000; PROP n0 w0->w1 1.25; ADD n1 v2; PROP n1 w1->w2 ...; BAL ...; RETRY ..."})
 		_ = big.NewInt
